@@ -531,6 +531,32 @@ func (m *ProtoModel) quiescent() {
 	if !m.ExactNames {
 		return
 	}
+	// no channel of the authority - active or not, old or re-created - may still
+	// list a name nobody watches ("after all watchers are removed the resource
+	// is unsubscribed"): the last request of each type on every live stream is
+	// a subset of the watched names
+	for _, srv := range servers {
+		s := m.liveStream(srv)
+		if s == nil {
+			continue
+		}
+		for _, typ := range []string{TypeURLA, TypeURLB} {
+			got, sent := s.lastNames[typ]
+			if !sent {
+				continue
+			}
+			m.Stats["quiescent_surplus_checks"]++
+			var surplus []string
+			for _, n := range got {
+				if m.exact[key2("", typ)][n] == 0 {
+					surplus = append(surplus, n)
+				}
+			}
+			if len(surplus) > 0 {
+				m.fail("unwatched-name-still-subscribed-at-quiescence", "stream %d (srv %d) type %s: at quiescence the last request lists %v, of which %v are not watched by anybody (watched: %v)", s.id, s.server, TypeNames[typ], got, surplus, sortedKeys(m.exact[key2("", typ)]))
+			}
+		}
+	}
 	act := m.activeServer()
 	if act < 0 {
 		m.maxAct, m.revert = -1, false
